@@ -115,7 +115,7 @@ PROPS = {
         "gen": gen.gen_C02,
     },
     "C03": {
-        "proj": {"ops": {"push", "pushrun", "files", "range", "len", "read_all"}, "roles": ["data", "index"]},
+        "proj": {"ops": {"push", "pushrun", "files", "range", "len", "read_all"}, "roles": ["data", "index", "cache"]},
         "gen": gen.gen_C03,
         "nontrivial": lambda s, r, t: any(x.startswith("err:TimeNotAfterLast") or x.startswith("err:WrongLineLength") for x in t),
     },
@@ -130,7 +130,7 @@ PROPS = {
         "gen": gen.gen_C07,
     },
     "C12": {
-        "proj": {"ops": {"len", "is_empty", "range", "last_line", "payload_size"}},
+        "proj": {"ops": {"len", "is_empty", "range", "last_line", "payload_size", "read_all"}},
         "gen": gen.gen_C12,
     },
     "C13": {
@@ -138,7 +138,7 @@ PROPS = {
         "gen": gen.gen_C13,
     },
     "C14": {
-        "proj": {"ops": {"n_lines"}},
+        "proj": {"ops": {"n_lines", "read_all"}},
         "gen": gen.gen_C14,
     },
     "C15": {
